@@ -16,7 +16,8 @@ from common import Check, MachineryError, main_wrapper, run_tlc, run_workers, tl
 BOHR = 0.52917721092
 FAM = {"sl": ("none", "none"), "nldf_j": ("j", "none"), "nldf_i": ("i", "none"), "nldf_ij": ("ij", "none"), "nldf_k": ("k", "none"),
        "sdmx": ("none", "SDMX"), "nldf_j+sdmx": ("j", "SDMX")}
-GEOM = {"R": [["H", (0.0, 0.0, 0.0)], ["F", (0.0, 0.1, 0.92)]], "U": [["O", (0.0, 0.0, 0.0)], ["H", (0.0, 0.12, 0.97)]]}
+GEOM = {"R": [["H", (0.0, 0.0, 0.0)], ["F", (0.0, 0.1, 0.92)]], # the doublet must be NON-degenerate: OH (2-Pi) flips between its two pi occupations and never converges to 1e-11
+        "U": [["N", (0.0, 0.0, 0.0)], ["H", (0.0, 0.80, 0.60)], ["H", (0.07, -0.74, 0.66)]]}
 
 
 def scf(row, shift_atom=None, shift=None, level=2, cheap=False):
@@ -103,7 +104,7 @@ def main():
     quick = ck.tier == "quick"
     ck.rule = ("row = (RKS|UKS, density fitting, feature family, grid response, interpolator) emitted by TLC from GradDispatch.tla; every row: "
                "gradient class and forces/NotImplementedError as the model says; supported rows (quick: a stratified third; thorough: all): "
-               "converged SCF (conv_tol 1e-11) with a synthetic model on HF (R) / OH (U), analytic forces vs Richardson FD of the SCF energy "
+               "converged SCF (conv_tol 1e-11) with a synthetic model on HF (R) / bent NH2 (U, non-degenerate doublet), analytic forces vs Richardson FD of the SCF energy "
                "for 1 (quick) / all (thorough) coordinates, sum rule")
     r = run_tlc("GradDispatch", "MC_GradDispatch.cfg", workers=4, timeout=600)
     if r.error:
@@ -119,11 +120,20 @@ def main():
     if len(rows) < 40:
         raise MachineryError("rows not emitted")
     jobs = []
+    # quick: finite-difference forces for one row of EVERY (spin, grid response, family) triple -- the three dimensions that
+    # select different code in rks_grad / uks_grad -- with density fitting and interpolator rotating over the triples
+    fdrows, seen3 = set(), {}
+    if quick:
+        for k, (row, exp) in enumerate(rows):
+            if exp["kind"] == "forces":
+                seen3.setdefault((row["spin"], row["grid_response"], row["fam"]), []).append(k)
+        for t, (key3, ks_) in enumerate(sorted(seen3.items(), key=repr)):
+            fdrows.add(ks_[(t + ck.seed) % len(ks_)])
     for k, (row, exp) in enumerate(rows):
         coords = []
         if exp["kind"] == "forces":
             if quick:
-                if k % 4 == ck.seed % 4:
+                if k in fdrows:
                     coords = [(1, int(rng.integers(1, 3)))]
             else:
                 coords = [(a, x) for a in (0, 1) for x in (1, 2)]
@@ -139,6 +149,8 @@ def main():
         for v in res["viol"]:
             ck.violation(v["site"], v["detail"], replay={"job": job})
         if res.get("skipped"):
+            if job["coords"]:
+                raise MachineryError("finite-difference row %d (%s) was skipped: %s -- the check would be vacuous for it" % (res["id"], job["row"], res["skipped"]))
             ck.notes.append("row %d skipped: %s" % (res["id"], res["skipped"]))
     ck.traces = len(jobs)
     ck.extra["rows_with_fd_forces"] = nfd
